@@ -313,6 +313,9 @@ def main():
             cli_results.append(r)
         for j, cc in enumerate(build_cli_cases(scr, callables, cli_only, run.seed, thorough)):
             tasks.append({"kind": "cli", "case": cc, "scr": scr, "jaq": jaq, "cfg": cfg, "noise": sorted(noise), "idx": str(j)})
+        tasks.insert(0, {"kind": "cli", "case": {"name": "repl-control", "site": "cli:repl", "argclass": "positive control",
+                                                 "argv": ["-n", "repl"], "zone_ok": False, "timeout": 25},
+                         "scr": scr, "jaq": jaq, "cfg": cfg, "noise": sorted(noise), "idx": "repl"})
         before = R.listing(scr)
         # ---- run
         distinct = Distinct()
@@ -368,6 +371,8 @@ def main():
                 run.notes.append("not reproduced in a fresh process: %s" % f["raw"][:200])
         repl_control = None
         for r in cli_results:
+            if r["name"] == "repl-control":
+                continue
             cli_runs += 1
             lines += r["lines"]
             unparsed += r["unparsed"]
@@ -391,15 +396,16 @@ def main():
                              "syscalls_after_first_input": r["exec_hist"], "named_files_opened": r["opened_named"]})
         after = R.listing(scr)
         # ---- positive control: `repl` (documented exception) must be seen doing what the policy forbids
-        rc_case = {"name": "repl-control", "site": "cli:repl", "argclass": "positive control", "argv": ["-n", "repl"],
-                   "zone_ok": False, "timeout": 4}
-        rr = R.run_cli_case({"case": rc_case, "scr": scr, "jaq": jaq, "cfg": cfg, "noise": sorted(noise), "idx": "repl"})
+        rr = [r for r in cli_results if r["name"] == "repl-control"][0]
+        if rr["rc"] is None and not rr["findings"]:      # starved machine: once more, patiently
+            rr = R.run_cli_case({"case": dict(rr["case"], timeout=180), "scr": scr, "jaq": jaq, "cfg": cfg,
+                                 "noise": sorted(noise), "idx": "repl2"})
         repl_control = {"rc": rr["rc"], "events_flagged": [(f["cls"], (f["detail"].get("path") if isinstance(f["detail"], dict) else None))
                                                           for f in rr["findings"]][:8]}
         if rr["rc"] == 3:
             run.notes.append("`repl` does not compile in the jaq binary any more: positive control skipped")
         elif not rr["findings"]:
-            broken = broken or "positive control: `jaq -n repl` opened a terminal/history file but the policy flagged nothing"
+            broken = broken or "positive control: `jaq -n repl` ran but the policy flagged nothing"
         if repl_in_lib:
             run.notes.append("`repl` is now part of the library natives (jaq_all::data::funs); it stays excluded by name")
         # ---- second, independent observation: canaries and directory listings
@@ -408,6 +414,8 @@ def main():
             wit["mode"] = "fs-state"
             run.violation(key, wit)
         for p in sorted(set(after) - set(before)):
+            if p == "home/.cache/jaq-history":       # written by the `repl` positive control (documented exception)
+                continue
             run.violation("fs-state:new-file", {"mode": "fs-state", "path": p, "scratch": scr,
                                                 "note": "a file appeared in the scratch cwd/canary/home/fixture directories"})
         for p in sorted(set(before) - set(after)):
